@@ -146,6 +146,24 @@ def np_log10(xs):
     return [float(v) for v in np.log10(np.array(xs, np.float64))]
 
 
+AXIS_LOG_NUMPY = {}      # rate class -> does __init__ compute its log-space knots with np.log10? (from the translator)
+
+
+def knot_logs(cls, xs):
+    """the knots the constructor of `cls` hands to raysect, as the current source computes them"""
+    if AXIS_LOG_NUMPY.get(cls, True):
+        return np_log10(xs)
+    return [math.log10(x) for x in xs]
+
+
+SIGNATURES = set()
+
+
+def fail(ctx, sig, desc, rep):
+    SIGNATURES.add(sig)
+    ctx.fail(sig, desc, rep)
+
+
 def logs_agree(x):
     return float(np.log10(np.array([x, x, x, x, x], np.float64))[0]) == math.log10(x) and float(np.log10(np.array([x]))[0]) == math.log10(x)
 
@@ -309,8 +327,8 @@ def eval_points(rng, shape_kind, tab, n_interior):
 
 
 # ------------------------------------------------------------------------------------------------ driver lines
-def _axis_tokens(xs):
-    return [str(len(xs))] + [f2b(x) for x in xs] + [f2b(x) for x in np_log10(xs)]
+def _axis_tokens(cls, xs):
+    return [str(len(xs))] + [f2b(x) for x in xs] + [f2b(x) for x in knot_logs(cls, xs)]
 
 
 def _flat(t):
@@ -322,15 +340,15 @@ def _flat(t):
 def rate_line(cls, shape_kind, ex, wl, tab, pts):
     toks = ['rate', cls, '1' if ex else '0', f2b(wl if wl is not None else 0.0), f2b(HC9)]
     if shape_kind == 'grid2':
-        toks += _axis_tokens(tab['ne']) + _axis_tokens(tab['te']) + [f2b(x) for x in _flat(tab['rate'])]
+        toks += _axis_tokens(cls, tab['ne']) + _axis_tokens(cls, tab['te']) + [f2b(x) for x in _flat(tab['rate'])]
     elif shape_kind == 'grid3':
-        toks += _axis_tokens(tab['ne']) + _axis_tokens(tab['te']) + _axis_tokens(tab['td']) + [f2b(x) for x in _flat(tab['rate'])]
+        toks += _axis_tokens(cls, tab['ne']) + _axis_tokens(cls, tab['te']) + _axis_tokens(cls, tab['td']) + [f2b(x) for x in _flat(tab['rate'])]
     elif shape_kind == 'beam':
-        toks += _axis_tokens(tab['e']) + _axis_tokens(tab['n']) + _axis_tokens(tab['t'])
+        toks += _axis_tokens(cls, tab['e']) + _axis_tokens(cls, tab['n']) + _axis_tokens(cls, tab['t'])
         toks += [f2b(x) for x in _flat(tab['sen'])] + [f2b(x) for x in tab['st']] + [f2b(tab['sref'])]
     else:
         for k in ('eb', 'ti', 'ni', 'z', 'b'):
-            toks += _axis_tokens(tab[k])
+            toks += _axis_tokens(cls, tab[k])
         for k in ('qeb', 'qti', 'qni', 'qz', 'qb'):
             toks += [f2b(x) for x in tab[k]]
         toks.append(f2b(tab['qref']))
@@ -528,7 +546,7 @@ def policy_stream(ctx, cat, tr_info):
                     want = ('ok:' + sp.symbol) if sp.symbol in wls else (
                         'ok:' + _elem(sp).symbol if (fb and _is_iso(sp) and _elem(sp).symbol in wls) else 'raises:RuntimeError')
                     if o != want:
-                        ctx.fail('C07:wavelength:%s' % ('wrong-species' if o.startswith('ok') else o.split(':')[1]),
+                        fail(ctx, 'C07:wavelength:%s' % ('wrong-species' if o.startswith('ok') else o.split(':')[1]),
                                  'OpenADAS.wavelength(%s) with stored %s, fallback=%s gave %s, property wants %s' % (sp.name, sorted(wls), fb, o, want), m)
                 repo.drop(root)
     repo.close()
@@ -584,25 +602,25 @@ def policy_oracle(ctx, name, spec, species, stored, wls, null, fb, o, m):
     if not present:
         if null:
             if not o.startswith('null:'):
-                ctx.fail('C07:%s:missing-data-null-requested:%s' % (name, o.replace('raises:', '').split(':')[0]),
+                fail(ctx, 'C07:%s:missing-data-null-requested:%s' % (name, o.replace('raises:', '').split(':')[0]),
                          '%s(%s) with the element\'s data missing and missing_rates_return_null=True gave %s; the property wants a rate that is zero everywhere'
                          % (name, [s.name for s in species], o), m)
         else:
             if o != 'raises:RuntimeError':
-                ctx.fail('C07:%s:missing-data:%s' % (name, o.split(':')[1] if ':' in o else o),
+                fail(ctx, 'C07:%s:missing-data:%s' % (name, o.split(':')[1] if ':' in o else o),
                          '%s(%s) with the element\'s data missing gave %s; the property wants RuntimeError' % (name, [s.name for s in species], o), m)
         return
     # data present for the element(s)
     if o.startswith('rate:'):
         _, key, wsym, _ = o.split(':')
         if key != ','.join(elem_key):
-            ctx.fail('C07:%s:isotope-not-served-from-element-rates' % name,
+            fail(ctx, 'C07:%s:isotope-not-served-from-element-rates' % name,
                      '%s(%s): returned rate was built from stored key %s, the property wants the element key %s' % (
                          name, [s.name for s in species], key, elem_key), m)
         if spec['wl']:
             req = species[spec['wl'][0]]
             if req.symbol in wls and wsym != req.symbol:
-                ctx.fail('C07:%s:wavelength-not-of-requested-species' % name,
+                fail(ctx, 'C07:%s:wavelength-not-of-requested-species' % name,
                          '%s(%s): photon->W conversion used the wavelength stored for %s although the requested species %s has its own (%s nm vs %s nm)'
                          % (name, [s.name for s in species], wsym, req.symbol, wls.get(wsym), wls[req.symbol]), m)
     elif o.startswith('raises:'):
@@ -611,14 +629,14 @@ def policy_oracle(ctx, name, spec, species, stored, wls, null, fb, o, m):
             req = species[spec['wl'][0]]
             avail = req.symbol in wls or (fb and _is_iso(req) and _elem(req).symbol in wls)
             if avail:
-                ctx.fail('C07:%s:raises-with-data-present:%s' % (name, o.split(':')[1]),
+                fail(ctx, 'C07:%s:raises-with-data-present:%s' % (name, o.split(':')[1]),
                          '%s(%s) raised %s although rate data (key %s) and the wavelength of the requested species are stored (%s)'
                          % (name, [s.name for s in species], o, elem_key, sorted(wls)), m)
         else:
-            ctx.fail('C07:%s:raises-with-data-present:%s' % (name, o.split(':')[1]),
+            fail(ctx, 'C07:%s:raises-with-data-present:%s' % (name, o.split(':')[1]),
                      '%s(%s) raised %s although rate data are stored under %s' % (name, [s.name for s in species], o, elem_key), m)
     elif o.startswith('null'):
-        ctx.fail('C07:%s:null-with-data-present' % name, '%s returned a Null rate although data are stored' % name, m)
+        fail(ctx, 'C07:%s:null-with-data-present' % name, '%s returned a Null rate although data are stored' % name, m)
 
 
 # ------------------------------------------------------------------------------------------------ numeric stream (K + S)
@@ -700,14 +718,14 @@ def numeric_stream(ctx, cat, plan):
             continue
         if c['st'] != 'ok':
             ctx.count('accessor-raised:' + c['st'])
-            ctx.fail('C07:%s:raises-with-data-present:%s' % (c['name'], c['st']),
+            fail(ctx, 'C07:%s:raises-with-data-present:%s' % (c['name'], c['st']),
                      '%s raised %s: %s although data and wavelength are stored' % (c['name'], c['st'], c['val']), desc)
             _broke(ctx, 'numeric stream ' + c['name'], dict(input=desc, model=po, implementation=c['st']))
             continue
         if shape == 'beamCX':
             got = sorted(r.donor_metastable for r in c['val'])
             if got != mts or not c['in_list']:
-                ctx.fail('C07:beam_cx_pec:metastable-list', 'returned metastables %s for stored %s' % (got, mts), desc)
+                fail(ctx, 'C07:beam_cx_pec:metastable-list', 'returned metastables %s for stored %s' % (got, mts), desc)
         for r in c['val']:
             m = getattr(r, 'donor_metastable', None) if shape == 'beamCX' else None
             wt = c['want_tab']['metastables'][m] if shape == 'beamCX' else c['want_tab']
@@ -753,15 +771,15 @@ def rate_oracle(ctx, c, shape, wt, kind, args, info, ist, iv, d):
     name, cls = c['name'], c['spec']['cls']
     if ist == 'ok':
         if not (iv >= 0.0):
-            ctx.fail('C07:%s:negative-rate' % cls, '%s%r = %r < 0' % (cls, tuple(args), iv), d)
+            fail(ctx, 'C07:%s:negative-rate' % cls, '%s%r = %r < 0' % (cls, tuple(args), iv), d)
         if not math.isfinite(iv):
-            ctx.fail('C07:%s:non-finite-rate:%s' % (cls, kind), '%s%r = %r' % (cls, tuple(args), iv), d)
+            fail(ctx, 'C07:%s:non-finite-rate:%s' % (cls, kind), '%s%r = %r' % (cls, tuple(args), iv), d)
     nonpos = [i for i in DTE[shape] if args[i] <= 0]
     if nonpos:
         # "returns zero when a density, temperature or energy argument is non-positive"
         if not (ist == 'ok' and iv == 0.0):
             which = ARG_NAMES[shape][nonpos[0]]
-            ctx.fail('C07:%s:nonpositive-%s-not-zero' % (cls, which),
+            fail(ctx, 'C07:%s:nonpositive-%s-not-zero' % (cls, which),
                      '%s(%s) with %s = %r returned %s, the property wants 0 (extrapolate=%s)' % (
                          cls, ', '.join('%s=%r' % (n, a) for n, a in zip(ARG_NAMES[shape], args)), which, args[nonpos[0]],
                          iv if ist == 'ok' else ist, c['ex']), d)
@@ -774,29 +792,29 @@ def rate_oracle(ctx, c, shape, wt, kind, args, info, ist, iv, d):
             axs = axes_of(shape, wt)
             edge = any(i in (0, len(a) - 1) and len(a) > 1 for i, a in zip(info['idx'], axs))
             if ist == 'ValueError' and edge and not c['ex']:
-                ctx.fail('C07:grid-point:edge-knot-raises',
+                fail(ctx, 'C07:grid-point:edge-knot-raises',
                          '%s via %s: evaluating at the tabulated grid point %r (an end knot) raises ValueError "outside range" with permit_extrapolation=False: '
                          'the knots are np.log10(axis), the argument is libm log10(x) and the two differ by an ulp; table value %r' % (cls, name, args, want), d)
             else:
-                ctx.fail('C07:%s:grid-point-raises:%s' % (cls, ist), '%s at grid point %r raised %s' % (cls, args, ist), d)
+                fail(ctx, 'C07:%s:grid-point-raises:%s' % (cls, ist), '%s at grid point %r raised %s' % (cls, args, ist), d)
         elif not close(iv, want, 1e-9):
             sig = 'C07:%s:grid-point-value' % cls
             if c['spec']['wl'] and c['model_wl'] is not None and c['want_wl'] is not None and c['model_wl'] != c['want_wl'] \
                     and close(iv * c['model_wl'], want * c['want_wl'], 1e-9):
                 sig = 'C07:%s:wavelength-not-of-requested-species' % name
-            ctx.fail(sig, '%s via %s at grid point %r returned %r, stored value after conversion is %r' % (cls, name, args, iv, want), d)
+            fail(ctx, sig, '%s via %s at grid point %r returned %r, stored value after conversion is %r' % (cls, name, args, iv, want), d)
         return
     if kind == 'interior':
         if ist != 'ok':
-            ctx.fail('C07:%s:raises-inside-range' % cls, '%s%r raised %s strictly inside the tabulated range' % (cls, tuple(args), ist), d)
+            fail(ctx, 'C07:%s:raises-inside-range' % cls, '%s%r raised %s strictly inside the tabulated range' % (cls, tuple(args), ist), d)
         return
     if kind == 'outside' and not info.get('single'):
         if c['ex']:
             if ist != 'ok':
-                ctx.fail('C07:%s:raises-with-extrapolation' % cls, '%s%r raised %s although permit_extrapolation=True' % (cls, tuple(args), ist), d)
+                fail(ctx, 'C07:%s:raises-with-extrapolation' % cls, '%s%r raised %s although permit_extrapolation=True' % (cls, tuple(args), ist), d)
         else:
             if ist != 'ValueError':
-                ctx.fail('C07:%s:no-raise-outside-range:%s' % (cls, ARG_NAMES[shape][info['axis']]),
+                fail(ctx, 'C07:%s:no-raise-outside-range:%s' % (cls, ARG_NAMES[shape][info['axis']]),
                          '%s%r returned %r outside the tabulated range of %s with permit_extrapolation=False' % (
                              cls, tuple(args), iv if ist == 'ok' else ist, ARG_NAMES[shape][info['axis']]), d)
 
@@ -831,7 +849,7 @@ def constants_check(ctx):
     codata = 6.62607015e-34 * 299792458.0 * 1e9
     ctx.case(key=('hc9', f2b(HC9)))
     if not close(HC9, codata, 1e-12):
-        ctx.fail('C07:PhotonToJ:conversion-factor', 'PhotonToJ.conversion_factor = %r, hc*1e9 = %r' % (HC9, codata), dict(value=HC9))
+        fail(ctx, 'C07:PhotonToJ:conversion-factor', 'PhotonToJ.conversion_factor = %r, hc*1e9 = %r' % (HC9, codata), dict(value=HC9))
     # the model's formula against the implementation's, a few values (also vector input as used by the constructors)
     lines, vals = [], []
     for x, w in ((1e-14, 656.28), (3.5e-15, 121.567), (1.0, 1.0), (2.5e-13, 1032.5)):
@@ -913,7 +931,7 @@ def run(ctx):
         shutil.rmtree(_HOME, ignore_errors=True)
     if stray:
         ctx.count('stray-write-under-home')
-        ctx.fail('C07:accessor-writes-under-home', 'an accessor call created ~/.cherab although data_path was given', {})
+        fail(ctx, 'C07:accessor-writes-under-home', 'an accessor call created ~/.cherab although data_path was given', {})
     ctx.exhaustive = True
     ctx.extra['exhaustive_part'] = 'policy stream (accessor x species kinds x stored keys x wavelengths x flags)'
     _mark_explained(ctx, tr)
